@@ -490,6 +490,11 @@ impl<'tcx> Cx<'tcx> {
             }
             Const::Ty(_, ct) => {
                 o.push(("tyconst", s(format!("{:?}", ct))));
+                let env = TypingEnv::post_analysis(tcx, caller);
+                let r = std::panic::catch_unwind(std::panic::AssertUnwindSafe(|| c.const_.eval(tcx, env, c.span)));
+                if let Ok(Ok(cv)) = r {
+                    self.const_val(caller, cv, t, &mut o);
+                }
             }
         }
         J::O(o)
